@@ -90,6 +90,15 @@ func (g *c02G) randTy(d int, rigid bool) *c02Ty {
 	if rigid && g.nrigid > 0 && r < 30 {
 		return c02Var(g.rng.Intn(g.nrigid))
 	}
+	if g.allowGN && d > 0 && r >= 30 && r < 60 {
+		switch g.rng.Intn(3) {
+		case 0:
+			return c02Named("Box", g.randTy(d-1, rigid))
+		case 1:
+			return c02Named("Opt", g.randTy(d-1, rigid))
+		}
+		return c02Named("Two", g.randTy(d-1, rigid), g.randTy(d-1, rigid))
+	}
 	if d <= 0 || r < 55 {
 		return g.randBase()
 	}
@@ -719,7 +728,24 @@ func c02RandFunc(rng *Rng, name string, sigs []*c02Sig, hazardKind string) *c02F
 	default:
 		rt = g.randTy(2, false)
 	}
-	body := g.genBlock(rt, 3, 3)
+	var body *c02Exp
+	if g.underscore {
+		// the hazard: "_" in a destructuring let whose right-hand side has no type yet at parse time
+		tt := c02Tuple(g.poolTy(), g.poolTy())
+		pn := string(rune('a' + np))
+		params = append(params, c02Param{Name: pn, Ty: tt})
+		g.env = append(g.env, c02EnvVar{Name: "w1", Ty: tt.Args[0]})
+		rest := g.genBlock(rt, 3, 2)
+		if rest == nil {
+			return nil
+		}
+		if !g.used["w1"] {
+			rest = c02WrapFinal(rest, "w1")
+		}
+		body = &c02Exp{K: "lettup", Xs: []string{"w1", "_"}, Args: []*c02Exp{{K: "var", Name: pn}, rest}}
+	} else {
+		body = g.genBlock(rt, 3, 3)
+	}
 	if body == nil {
 		return nil
 	}
